@@ -584,4 +584,9 @@ def one_pair(regime, seedstr, pid):
         lines, L = pair_resume(H, cfgd, conns, table, pid, rng)
         conns = conns + ("cx",)
         cfgd = dict(cfgd, snapshots=True)
+    # the connection slots of the left execution (the spare one only if it was really used)
+    for (e, o) in L:
+        if o is not None:
+            conns = tuple(sorted(o["hid"]["conn"].keys()))
+            break
     return dict(pid=pid, lines=lines, L=L, conns=conns, cfg=cfgd, info=info, table=table)
